@@ -58,8 +58,15 @@ def run(R):
     step = aug.ast.value.value if isinstance(aug.ast.op, ast.Add) and isinstance(aug.ast.value, ast.Constant) else None
     inits = [v for (d, v) in rt.cfg.defs_reaching(aug, cvar) if d is not aug]
     init = inits[0].value if len(inits) == 1 and isinstance(inits[0], ast.Constant) else None
+    def lhs_off(e):
+        if isinstance(e, ast.Name) and e.id == cvar:
+            return 0
+        if isinstance(e, ast.BinOp) and isinstance(e.op, (ast.Add, ast.Sub)) and isinstance(e.left, ast.Name) and e.left.id == cvar \
+                and isinstance(e.right, ast.Constant) and isinstance(e.right.value, int):
+            return e.right.value if isinstance(e.op, ast.Add) else -e.right.value
+        return None
     tests = [t for t in rt.cfg.nodes if t.kind == 'test' and isinstance(t.ast, ast.Compare) and len(t.ast.ops) == 1
-             and ast.unparse(t.ast.left) == cvar]
+             and lhs_off(t.ast.left) is not None]
     probs = []
     if step != 1 or init is None:
         probs.append((f'counter init={init} step={step}', aug.ast))
@@ -79,7 +86,7 @@ def run(R):
         off = {ast.GtE: 0, ast.Eq: 0, ast.Gt: 1}.get(op)
         if off is None:
             raise AnalysisError(f'retry: unrecognised limit test {norm(t.ast)}')
-        attempts_minus_R = -init + off + (0 if after_inc else 1)
+        attempts_minus_R = -init + off + (0 if after_inc else 1) - lhs_off(t.ast.left)
         if attempts_minus_R != 0:
             probs.append((f'an Interest is attempted retry_times{attempts_minus_R:+d} times (test `{norm(t.ast)}`, counter from {init})', t.ast))
     # the raising edge re-raises the timeout; the other edge loops back to a new express
